@@ -1,5 +1,26 @@
 chk('C07', 'model_checking',
-    'explicit-state search over ALL span sequences (6-span alphabet: DM(+300), DM(-300), fibre A 0.5 km, fibre A 3 km, fibre B 50 km, pure-loss 3 km; depth <= 2 quick / <= 3 thorough) on every grid (N in {1,2,3,16,17,64,65} x 1-/2-pol x gv.fs in {16,160,320} GS/s), model state = exact rational accumulated triple (sum beta2*L, sum beta3*L, sum alpha*L), every transition executed on the real DM/FIBER by chaining the returned objects and compared with the model filter, the single equivalent span and the first history of the same model state; plus bounded-exhaustive enumeration of the FULL basis e_k, j*e_k (which determines the linear operator; F M F^-1 recovered and compared with retH), ones, seeded random, noisy and one-sided fields and all 480 two-impulse superpositions (N=16) for 7 DM and 135 FIBER parameter points, and the algebraic laws DM(D1)oDM(D2)==DM(D1+D2) (49 pairs), FIBER(L,b2)==DM(b2*L) (15), FIBER(L2)oFIBER(L1)==FIBER(L1+L2) (405)',
-    'continuum quantifiers (all fields, all D/beta/alpha/L, all fs) are covered at basis/grid points only; gamma=0 only; the noise component (passed through unfiltered by both blocks) is outside the statement and only its shape is checked; retH may be in fft or fftshift order; loss law within the 2e-4 band of the alpha/4.343 constant (sum alpha*L <= 60 dB); numpy.fft and x87 extended precision are trusted for the reference filter',
-    'explicit-state search over span sequences with an accumulated-parameter model and differential oracle (sequence == single equivalent span) + full basis enumeration against a numpy.fft reference filter',
+    'explicit-state search (part C) over ALL span sequences (6-span alphabet: DM(+300), DM(-300), fibre A 0.5 km, fibre A 3 km, fibre B '
+    '50 km, pure-loss 3 km; depth <= 2 quick / <= 3 thorough) on every grid (158 quick / 650 thorough), model state = exact rational triple '
+    '(sum beta2*L, sum beta3*L, sum alpha*L): 4 266 states / 6 636 transitions quick, 50 050 / 167 700 thorough; every transition executed on the real DM/FIBER by chaining returned objects and compared with the model filter, '
+    'the single equivalent span and the first history of the same model state. Grids = N x 1-/2-pol x gv call history: N in '
+    '{1,2,3,13,16,17,64,65} with the FULL basis e_k, j*e_k (operator F M F^-1 recovered, compared with retH), N in {97,127,206,4097,8192} in '
+    'probe mode (e_k, j*e_k for k in 0,1,N/2,N-1, ones, random, one-sided; thorough: full basis for 17 lengths up to 206, probe also for 8 lengths 1023..16384); '
+    'gv histories: sps+R 16/160/320 GS/s (thorough + 40/1280) on every N; 14 other call forms and two-call histories - non-integer fs/R, fs '
+    'alone, N in force, 1310 nm - on N in {2,3,64} (thorough: every full-basis N <= 129, 1023); N > 1000 on 2 / 3 rates only. Part A: every grid x 156 devices (7 '
+    'DM; FIBER 3 L x 3 alpha x 5 beta2 x 3 beta3; 14 extreme: |D| 1e-3 / 1e6 ps^2, L 1e-9..1e5 km, alpha 1e-9..100 dB/km) on basis, ones, seeded '
+    'random, noisy, one-sided fields and all 480 two-impulse superpositions (N=16). Part B: 485 laws (DM(D1)oDM(D2)==DM(D1+D2) 49 pairs, '
+    'FIBER(L,b2)==DM(b2*L) 15, FIBER(L2)oFIBER(L1)==FIBER(L1+L2) 405, 16 extreme) on every grid (N > 1000: 170 of them). Part D: lattice of '
+    '461 call forms around 5 base devices on 22 / 190 grids: 11 input dtypes, list / tuple / str inputs, 10 scalar spellings of D / L / alpha '
+    '/ beta2 / beta3, 7 spellings of gamma = 0, positional calls, phi_max, show_progress, retH forms, scales 1e-100..1e100, DC offset, 6 noise '
+    'layouts, the same objects used twice, gv reconfigured between identical calls, sweeps on one write-protected input. Plus the kernel '
+    'call-history part (6 calls x 3 grids vs a fresh interpreter)',
+    'continuum quantifiers (all fields, all D/beta/alpha/L, all fs) are covered at basis/grid points only (the full basis pins the operator at '
+    'each listed parameter point, not between them); probe-mode lengths check the filter on a few inputs, not the whole operator; gamma = 0 '
+    'only; search depth bounded (2 / 3), the model state space is infinite; the noise component (passed through unfiltered by both blocks) is '
+    'outside the statement: only its shape is checked, and for a noisy input either the signal part or the total field may obey the filter; '
+    'retH may be in fft or fftshift order; loss law within the 2e-4 band of the alpha/4.343 constant (alpha*L <= 50 dB per device); non-'
+    'optical_signal inputs (documented TypeError) are outside; VERIF_SEED only changes the seeded random fields; numpy.fft, x87 extended '
+    'precision and that every gv call form leaves the documented gv.fs (asserted before each case; C14 checks gv) are trusted',
+    'explicit-state search over span sequences with an accumulated-parameter model and differential oracle (sequence == single equivalent span) + '
+    'full basis enumeration and call-form deviation lattice against a numpy.fft reference filter',
     'DESIGN.md 5/C07')
